@@ -120,6 +120,14 @@ class MonInternalAdapter(BaseInternalRunAdapterDecorator):
             h.internal_sends.append(tick)
         await self._decorated.send_event(tick)
 
+    async def close(self) -> None:
+        await self._decorated.close()
+        h = _H
+        spec = getattr(h, "spec", None) if h is not None else None
+        if spec is not None and spec.params.get("adapter_close_raises"):
+            # a decorating adapter whose own teardown fails (a stream, a lock, a connection of a plugin runtime)
+            raise RuntimeError("adapter close failed")
+
     # SnapshottableAdapter passthrough used by some code paths
     def replay(self) -> Any:
         return self._decorated.replay()  # type: ignore[attr-defined]
